@@ -147,6 +147,104 @@ def c10(run):
                 "non-trivial = scenario with a retrieval for non-empty have", 150, 3000)
 
 
+# ---------------------------------------------------------------- document family
+def view_objs(sc):
+    for e in sc:
+        v = e.get('obs', {}).get('view')
+        if v:
+            for o in v:
+                yield o
+
+
+def has_conflict(sc):
+    for o in view_objs(sc):
+        for reg in (o.get('ents') or []) + (o.get('elems') or []) + (o.get('units') or []):
+            if len(reg.get('vals', [])) > 1:
+                return True
+    return False
+
+
+def interp_trace(run, checks, family, n, pred, label=None, spec="Trace_Interp.tla", extra=None):
+    t = os.path.join(run.work, f"{label or family}.ndjson")
+    drive([family, run.seed, n, t] + (extra or []))
+    run.validate(spec, checks, t, label or family)
+    count_nontrivial(run, t, pred)
+    sample_scenario(run, t, pred, maxlen=6)
+
+
+GEN_DOC_CFG = """SPECIFICATION Spec
+CONSTANTS
+  Replicas = {%s}
+  Depth = %d
+  Keys = {%s}
+  WithList = %s
+  WithInserts = %s
+INVARIANTS %s LocalEffect Convergence
+%sCHECK_DEADLOCK FALSE
+"""
+
+
+def gen_doc(run, variants):
+    """spec -> impl: TLC generates editing/merge programs from Doc.tla with the views Interp predicts;
+    every behaviour is replayed on the implementation and compared after every step"""
+    total = 0
+    for vi, var in enumerate(variants):
+        reps, depth, withlist, num = var[:4]
+        inserts = var[4] if len(var) > 4 else True
+        keys = var[5] if len(var) > 5 else '"k1"'
+        # num = 0: exhaustive search with transition coverage (one behaviour per (state, incoming
+        # transition) pair); otherwise random simulation of num traces
+        exh = num == 0
+        cfg = GEN_DOC_CFG % (reps, depth, keys, "TRUE" if withlist else "FALSE",
+                             "TRUE" if inserts else "FALSE", "EmitAll" if exh else "Emit",
+                             "VIEW TransitionView\n" if exh else "")
+        behs, r = tlc_behaviours("Doc.tla", cfg, os.path.join(run.work, "gendoc"), {}, num, depth + 1,
+                                 run.seed + vi, exhaustive=exh, workers=4 if exh else 1)
+        if exh:
+            run.cov["exhaustive"] = True
+        run.add_states(r)
+        bp = os.path.join(run.work, f"beh-doc-{vi}.ndjson")
+        with open(bp, "w") as f:
+            f.write("\n".join(behs) + "\n")
+        outp = os.path.join(run.work, f"rep-doc-{vi}.json")
+        replay_bin(["doc", bp, outp] + (["list"] if withlist else []))
+        res = json.load(open(outp))
+        total += res["behaviours"]
+        run.cov["evaluations"] += res["steps"]
+        for b in set(behs):
+            bj = json.loads(b)
+            if any(len(reg.get("vals", [])) > 1 for st in bj for o in st["exp"]
+                   for reg in list(o.get("ents", [])) + list(o.get("elems", []))):
+                run.nontrivial("beh:" + digest_of(b))
+        if behs:
+            run.sample({"gen": "Doc.tla", "behaviour": [{k: v for k, v in st.items() if k != "exp"} for st in json.loads(behs[0])]})
+        for mm in res["mismatches"][:3]:
+            obj = {"variant": [reps, depth, withlist], "behaviour": mm["line"], "step": mm["step"],
+                   "fields": mm["fields"], "expected": mm["expected"], "got": mm["got"]}
+            what = mm["expected"].get("call", {"merge": mm["expected"].get("merge")})
+            run.violation(obj, f"replay of TLC editing program (Doc.tla): step {mm['step']} {json.dumps(what)[:160]} "
+                               f"differs from the specification in {mm['fields']}",
+                          {"checks": ["replay:" + f for f in mm["fields"]], "event": mm["expected"]})
+    run.cov["traces_validated_against_impl"] += total
+    run.step("gen_doc", behaviours=total)
+
+
+def c02(run):
+    if run.tier == "quick":
+        gen_doc(run, [("1, 2", 6, False, 0), ("1, 2", 3, True, 0), ("1, 2, 3", 6, True, 10),
+                      ("1, 2, 3", 5, True, 40, False, "")])
+    else:
+        gen_doc(run, [("1, 2", 7, False, 0), ("1, 2", 4, True, 0), ("1, 2, 3", 5, False, 0),
+                      ("1, 2, 3", 4, True, 0, False, ""), ("1, 2, 3", 7, True, 150)])
+    run.cov["rule"] = ("seeded random multi-replica editing programs (maps, lists, text, counters, nested objects, "
+                       "concurrent puts/inserts/deletes/increments, merges, out-of-order deliveries, forks, save/load); "
+                       "after every event Interp(ops of applied changes) must equal the projected view; non-trivial = "
+                       "scenario (distinct by event sequence) in which some register held a conflict")
+    interp_trace(run, ["C02"], "conflict", sizes(run, 200, 4000), has_conflict)
+    interp_trace(run, ["C02"], "doc", sizes(run, 150, 3000), has_conflict)
+    interp_trace(run, ["C02"], "doctext", sizes(run, 100, 2000), has_conflict)
+
+
 def replay(run, path):
     """re-validate a recorded violating scenario"""
     from . import tlc_trace
@@ -162,4 +260,5 @@ REG = {
     "C05": ("model_checking", c05),
     "C38": ("model_checking", c38),
     "C10": ("model_checking", c10),
+    "C02": ("model_checking", c02),
 }
